@@ -141,11 +141,12 @@ def independent(chk, name, fn, call, tainted, alternatives, rp, goal, assumption
     paths = chk.run_paths(name, attempt, list(assumptions), fn=fn, replay=rp, goal=goal)
     if all(v[0] == "ok" for (_, _, v) in paths):
         for pt, pc, v in paths:
-            chk.ground(f"{pt}.never_read", True, fn=fn, goal=goal + "  [setting never read: bitwise]", replay=rp)
+            chk.ground(f"{pt}.independent_of_the_setting", True, fn=fn, goal=goal + "  [setting never read: bitwise]", replay=rp)
         return
     why = next(v[1] for (_, _, v) in paths if v[0] == "read")
     chk.extra.setdefault("settings_read_but_checked_relationally", []).append(f"{name}: {why}")
     ref = None
+    n_bad = sum(1 for o in chk.obls if o["verdict"] != "discharged")
     for k, alt in enumerate(alternatives):
         res = chk.run_paths(f"{name}.alternative{k}", lambda alt=alt: call(**alt), list(assumptions), fn=fn, replay=rp, goal=goal)
         vals = [np.array(v, dtype=object) for (_, _, v) in res]
@@ -160,6 +161,9 @@ def independent(chk, name, fn, call, tainted, alternatives, rp, goal, assumption
                 chk.fail(f"{name}.same_result[{k}].path{i}", f"result shapes differ with the setting ({why})", fn=fn, goal=goal, replay=rp)
             else:
                 chk.eq_array(f"{name}.same_result[{k}].path{i}", x, y, fn=fn, goal=goal + "  [setting read: results for different values coincide over the reals]", replay=rp, assumptions=list(assumptions))
+    # the summary obligation carries the same name whether the setting is never read or read without effect (a harmless read must not change the obligation set)
+    chk.ground(f"{name}.independent_of_the_setting", sum(1 for o in chk.obls if o["verdict"] != "discharged") == n_bad, fn=fn, replay=rp,
+               goal=goal + "  [setting read: the results for different values coincide over the reals, see the same_result obligations]", detail=why)
 
 
 def run(chk):
